@@ -35,6 +35,7 @@ import (
 
 	httppkg "github.com/fatedier/frp/pkg/util/http"
 	"github.com/fatedier/frp/pkg/util/log"
+	"github.com/fatedier/frp/pkg/util/verifhook"
 )
 
 var ErrNoRouteFound = errors.New("no route found")
@@ -114,6 +115,7 @@ func NewHTTPReverseProxy(option HTTPReverseProxyOptions, vhostRouter *Routers) *
 			IdleConnTimeout:       60 * time.Second,
 			MaxIdleConnsPerHost:   5,
 			DialContext: func(ctx context.Context, network, addr string) (net.Conn, error) {
+				verifhook.At("vhost.http.beforeDial", ctx.Value(RouteInfoKey).(*RequestRouteInfo).Host)
 				// Connect to the route selected for the request: the pool key above was built from it.
 				return rp.createConnectionByRoute(ctx.Value(RouteConfigKey).(*RouteConfig), ctx.Value(RouteInfoKey).(*RequestRouteInfo))
 			},
